@@ -272,7 +272,7 @@ def run_unit(unit):
                 if abs(f2_t - s * f2_0) > TOL * max(1.0, abs(s * f2_0)):
                     part.violation(PID, f'focal-length-{label}', 'Paraxial.f2', cfgc, det, observed=f2_t, expected=s * f2_0, tol=TOL)
                 if np.all(np.isfinite(S0)) and np.all(np.isfinite(St)):
-                    sc = max(1e-5, float(np.max(np.abs(S0))) * abs(s))      # sums of 1e-16 are rounding noise of zeros
+                    sc = max(1e-5 * (abs(s) if abs(s) > 100.0 else 1.0), float(np.max(np.abs(S0))) * abs(s))      # sums of 1e-16 are rounding noise of zeros (noise scales with the unit change 1e8)
                     if np.max(np.abs(St - s * S0)) > 1e-8 * sc:
                         cs_ = cfgc
                         if label == 'object-gap-dummy' and sp['surfs'][0]['mat'] == 'mirror' and \
